@@ -308,6 +308,10 @@ func doTraverseMap(newMatches *orderedmap.OrderedMap, node *CandidateNode, wante
 func traverseMergeAnchor(newMatches *orderedmap.OrderedMap, value *CandidateNode, wantedKey string, prefs traversePreferences, splat bool) error {
 	switch value.Kind {
 	case AliasNode:
+		if isListOfMaps(value.Alias) {
+			// an alias that stands for a list of maps
+			return traverseMergeAnchor(newMatches, value.Alias, wantedKey, prefs, splat)
+		}
 		if value.Alias.Kind != MappingNode {
 			return fmt.Errorf("can only use merge anchors with maps (!!map), but got %v", value.Alias.Tag)
 		}
